@@ -32,6 +32,17 @@ CHECKS = {
    note=TB + 'e{m,n} with run-time m > n is outside the property (constructor rejects it for literals); listed in DESIGN.md.',
    technique='Coq refinement proof + differential correspondence via extracted OCaml model',
    ref='DESIGN.md §6 C03'),
+ 'C08': dict(
+   text='Coq theorem C08_three_outcomes: for every well-formed grammar, every parameterless rule or class used as entry '
+        'point, every text, start offset and value of fullparse, the model of _run\'s tail and _finalize_parse_info returns the '
+        'matched value (spans finalised) / raises PartialParseError with that value and last_position.index = end of match / '
+        'raises ParseError exactly as the specification\'s match dictates, and nothing else (derived from the refinement '
+        'theorem; finalisation is total, including zero-width objects and the empty text). Tied to /repo by correspondence '
+        'through the public API: R.parse / C.parse of every rule and class and module-level parse, all offsets, both '
+        'fullparse values, all short inputs incl. empty and multi-line, values with finalised spans compared exactly.',
+   note=TB + 'The pos=k vs text[k:] shift law is checked differentially only so far (no theorem yet); inline Python is assumed not to raise.',
+   technique='Coq proof (three-outcomes theorem from the refinement theorem) + differential correspondence through the public API',
+   ref='DESIGN.md §6 C08'),
  'C09': dict(
    text='Coq theorems (unbounded: every text, line length, column) that the model of _map_index_to_line_and_column/'
         '_extract_excerpt/_caret_at gives line = 1 + newlines before the index, column = 1 + offset in line, a one-line '
